@@ -26,6 +26,7 @@ def ty_head_of(t):
 def run(ctx):
     lock_rule(ctx)
     prog = mirq.Program(ctx.facts.mir())
+    claim_rule(ctx, prog)
     ctx.not_decided += ["the interleavings themselves (the analysis decides which shared-reference entry points can write shared state at all; an entry that writes is reported, one that does not cannot interfere)",
                         "data races inside dependencies (rayon, std) - trusted"]
     ctx.assumptions += ["no unsafe code hands out aliased mutable references (C20.INV lists unsafe functions)", "rustc's borrow rules: without interior mutability a shared reference cannot write"]
@@ -196,3 +197,31 @@ def lock_rule(ctx):
                 if c["method"].startswith("try_"):
                     ctx.report(r, "%s|%s" % (f.qual, c["method"]), "%s acquires `%s` with %s(): when another thread holds the lock the access is skipped without a trace, so a mode switch or its reset is lost under concurrent readers" % (f.qual, unparse(c["recv"]), c["method"]), f.file, c.get("l"))
     ctx.floor(r, n, 1, "lock acquisitions on shared cells")
+
+
+# ---------------------------------------------------------------------- CLAIM
+WRITE_CALLS = re.compile(r"(^|::)(to_json_file|to_csv_file|to_txt_file|write_fmt|write_all|write)$")
+
+
+def claim_rule(ctx, prog):
+    """the `changed` flag of a stand-off member is shared (Arc<RwLock<bool>>) and is cleared through a shared reference by
+    the serialisers.  Clearing it tells every later serialisation "the stand-off file is up to date"; that is only true
+    once the write has completed, so every path to mark_unchanged() must pass through the write."""
+    r = ctx.rule("C20.CLAIM", "a serialiser clears the shared changed flag (mark_unchanged) only after the stand-off write has completed: every path to the call passes through the write call, so a failed or pending write never makes other readers skip theirs")
+    n = 0
+    for bid, b in sorted(prog.bodies.items()):
+        if b.d.get("derived"):
+            continue
+        marks = [bi for bi, t in b.calls() if (mirq.callee_of(t)[0] or "").endswith("::mark_unchanged") and not b.blocks[bi].get("cleanup")]
+        if not marks:
+            continue
+        ctx.functions_analysed.add(bid)
+        writes = set(bi for bi, t in b.calls() if WRITE_CALLS.search(mirq.callee_of(t)[0] or ""))
+        for m in marks:
+            n += 1
+            key = "%s#%d" % (bid, marks.index(m) + 1)
+            bypass = 0 not in writes and (m == 0 or b.can_reach(0, m, avoid=writes))
+            r.hit(key, sample={"in": bid, "writes_in_body": len(writes), "mark_reachable_without_write": bool(bypass)})
+            if bypass:
+                ctx.report(r, bid, "%s can reach mark_unchanged() (line %s) on a path that has not passed through the write of the stand-off file: the shared changed flag is cleared before (or without) the write, so when the write fails or is still pending every other serialisation of the shared store emits an @include to a file that was not written" % (bid, b.blocks[m]["t"].get("line")), b.file, b.blocks[m]["t"].get("line"))
+    ctx.floor(r, n, 5, "mark_unchanged call sites")
